@@ -16,7 +16,9 @@ def scenarios(ctx, stride_q=3, nsim_q=40):
         # classes: operator / primitive kinds, and whether the expression depends on parameters at all
         # ... and whether it scales with a parameter by orders of magnitude
         big = lambda s: ("|big" if '"t": 10000' in json.dumps(s["expr"]) else "") + ("|negr" if '"t": -1' in json.dumps(s["expr"]) else "")
-        scen = ctx.stratified(scen, 1.0 / stride_q, key=lambda s: geo_sig(s["expr"], False) + ("|p" if free_vars(s["expr"]) else "") + big(s))
+        flagged = [s for s in scen if s["expr"].get("contained") or s["expr"].get("disjoint")]       # (few: always kept)
+        scen = [s for s in scen if s not in flagged]
+        scen = flagged + ctx.stratified(scen, 1.0 / stride_q, key=lambda s: geo_sig(s["expr"], False) + ("|p" if free_vars(s["expr"]) else "") + big(s))
     sim = ctx.gen("Gen_Geo", "Gen_Geo_sim" if ctx.quick else "Gen_Geo_sim4", simulate="num=%d" % (nsim_q if ctx.quick else 600), depth=6)
     return scen + sim
 
